@@ -1,8 +1,9 @@
-(* C11 — "flow nesting is bounded" as a statement about TEXT: scanner theorem (Proofs/DepthScan.v) composed with the
-   parser theorem (Proofs/DepthTokRun.v). *)
+(* C11 — "nesting is bounded" as a statement about TEXT: the scanner theorems (Proofs/DepthScan.v: flow level;
+   Proofs/DepthNest.v: nesting of the whole token stream, a CONSTANT) composed with the parser theorem
+   (Proofs/DepthTokRun.v). *)
 From Coq Require Import List NArith Bool Lia PeanoNat.
 Import ListNotations.
-Require Import Parser SBase SFetch SBuf Pipe Drivers Grammar Loader C02run Depth DepthProofs DepthTok DepthTokRun DepthScan DepthTree.
+Require Import Parser SBase SFetch SBuf Pipe Drivers Grammar Loader C02run Depth DepthProofs DepthTok DepthTokRun DepthScan DepthNest DepthTree DepthAlias.
 Require Consts.
 Local Open Scope nat_scope.
 
@@ -52,13 +53,23 @@ Proof.
   cbn [fst]. apply (nesting_bounded_by_token_nesting toks false se).
 Qed.
 
+(* ------------------------------------------------------------------------------------------------ *)
+(* THE headline: for EVERY text the events of the whole model pipeline nest at most NEST_BOUND deep    *)
+(* ------------------------------------------------------------------------------------------------ *)
+Theorem run_str_nesting_const text : max_nesting (evs_of (fst (run_str text))) <= NEST_BOUND.
+Proof.
+  pose proof (run_str_nesting_le_tokens text). pose proof (scan_str_nest_bounded text). unfold NEST_BOUND. lia.
+Qed.
+
 Theorem oracle_holds_on_model text :
-  c11_oracle (fst (scan_str text)) (evs_of (fst (run_str text))) = (true, true, true).
+  c11_oracle (fst (scan_str text)) (evs_of (fst (run_str text))) = (true, true, true, true, true).
 Proof.
   unfold c11_oracle.
   rewrite (proj2 (Nat.leb_le _ _) (scan_str_flow_level_bounded text)).
   rewrite (proj2 (Nat.leb_le _ _) (run_str_nesting_le_tokens text)).
-  rewrite (proj2 (Nat.leb_le _ _) (run_str_nesting_bounded text)). reflexivity.
+  rewrite (proj2 (Nat.leb_le _ _) (run_str_nesting_bounded text)).
+  rewrite (proj2 (Nat.leb_le _ _) (scan_str_nest_bounded text)).
+  rewrite (proj2 (Nat.leb_le _ _) (run_str_nesting_const text)). reflexivity.
 Qed.
 
 (* ------------------------------------------------------------------------------------------------ *)
@@ -85,6 +96,20 @@ Theorem push_loader_recursion_bounded_for_text text fuel' rest m :
   m <= 1 + 2 * (N.to_nat Consts.FLOW_LEVEL_MAX + other_openers (fst (scan_str text))).
 Proof.
   pose proof (run_str_nesting_bounded text) as HB.
+  destruct (evs_of (fst (run_str text))) as [|e0 evs]; [discriminate|].
+  cbn [tl]. unfold pl_document. destruct evs as [|e1 r]; [discriminate|]. destruct e1; try discriminate.
+  destruct (pl_node fuel' 1 r) as [r1 m1| | |] eqn:E; try discriminate.
+  destruct r1 as [|e2 r2]; [discriminate|]. destruct e2; try discriminate. intros H. inversion H; subst.
+  destruct (push_loader_recursion_depth _ _ _ _ _ E) as (used & Er & _ & Em). subst r.
+  pose proof (max_nesting_segment [e0; EDocumentStart explicit] used (EDocumentEnd :: rest)) as HS.
+  cbn [app] in HS. lia.
+Qed.
+
+(* ... by a constant: Parser::load never has more than 1 + NEST_BOUND load_node activations on the call stack *)
+Theorem push_loader_recursion_const text fuel' rest m :
+  pl_document fuel' (tl (evs_of (fst (run_str text)))) = PlDone rest m -> m <= 1 + NEST_BOUND.
+Proof.
+  pose proof (run_str_nesting_const text) as HB.
   destruct (evs_of (fst (run_str text))) as [|e0 evs]; [discriminate|].
   cbn [tl]. unfold pl_document. destruct evs as [|e1 r]; [discriminate|]. destruct e1; try discriminate.
   destruct (pl_node fuel' 1 r) as [r1 m1| | |] eqn:E; try discriminate.
@@ -121,6 +146,26 @@ Proof.
   pose proof (Hy d). pose proof (run_str_nesting_bounded text). lia.
 Qed.
 
+(* ... by a constant: every recursive traversal of a document of an accepted alias-free text, entered at depth d,
+   reaches at most d + NEST_BOUND *)
+Theorem loaded_tree_walk_const text :
+  snd (run_str text) = PDone -> alias_free_events (evs_of (fst (run_str text))) = true ->
+  exists ld, load_events (evs_of (fst (run_str text))) l0 = LOk ld
+             /\ Forall (fun y => ydepth y <= NEST_BOUND /\ forall d, ywalk d y <= d + NEST_BOUND) (l_docs ld).
+Proof.
+  intros HD HA. destruct (loaded_tree_depth_bounded _ (run_str_accepted_grammar text HD) HA) as (ld & HL & HF).
+  exists ld. split; [exact HL|]. eapply Forall_impl; [|exact HF]. cbn beta. intros y [Hd Hy].
+  pose proof (run_str_nesting_const text). split; [lia|]. intros d. pose proof (Hy d). lia.
+Qed.
+
+(* ... and WITH aliases, for every accepted text: no document is deeper than the events have collection starts *)
+Theorem loaded_tree_depth_le_collection_starts_for_text text :
+  snd (run_str text) = PDone ->
+  exists ld, load_events (evs_of (fst (run_str text))) l0 = LOk ld
+             /\ Forall (fun y => ydepth y <= coll_starts (evs_of (fst (run_str text)))
+                                 /\ forall d, ywalk d y <= d + coll_starts (evs_of (fst (run_str text)))) (l_docs ld).
+Proof. intros HD. apply loaded_tree_depth_le_collection_starts. apply run_str_accepted_grammar. exact HD. Qed.
+
 (* ------------------------------------------------------------------------------------------------ *)
 (* the same bound over the BUFFERED input back-end of any capacity                                    *)
 (* ------------------------------------------------------------------------------------------------ *)
@@ -140,4 +185,30 @@ Proof.
   cbn [fst] in *.
   pose proof (nesting_bounded_by_flow_level_and_other_openers toks false se (4 * (4 * (2 * length text + 10) + 20) + 40)) as H.
   unfold init_parser in H. lia.
+Qed.
+
+Theorem run_buf_nesting_const cap text : max_nesting (evs_of (fst (run_buf cap text))) <= NEST_BOUND.
+Proof.
+  unfold run_buf.
+  pose proof (scan_token_nesting_bounded (buf_ops cap) (2 * length text + 10) (4 * (2 * length text + 10) + 20)
+                {| b_buf := []; b_rest := text |}) as B.
+  destruct (scan_all (buf_ops cap) (2 * length text + 10) (4 * (2 * length text + 10) + 20)
+              (init_sc {| b_buf := []; b_rest := text |}) []) as [toks se] eqn:E.
+  cbn [fst] in *.
+  pose proof (nesting_bounded_by_token_nesting toks false se (4 * (4 * (2 * length text + 10) + 20) + 40)) as H.
+  unfold init_parser in H. unfold NEST_BOUND. lia.
+Qed.
+
+(* the push loader and the loaded tree over the buffered back-end *)
+Theorem push_loader_recursion_const_buffered cap text fuel' rest m :
+  pl_document fuel' (tl (evs_of (fst (run_buf cap text)))) = PlDone rest m -> m <= 1 + NEST_BOUND.
+Proof.
+  pose proof (run_buf_nesting_const cap text) as HB.
+  destruct (evs_of (fst (run_buf cap text))) as [|e0 evs]; [discriminate|].
+  cbn [tl]. unfold pl_document. destruct evs as [|e1 r]; [discriminate|]. destruct e1; try discriminate.
+  destruct (pl_node fuel' 1 r) as [r1 m1| | |] eqn:E; try discriminate.
+  destruct r1 as [|e2 r2]; [discriminate|]. destruct e2; try discriminate. intros H. inversion H; subst.
+  destruct (push_loader_recursion_depth _ _ _ _ _ E) as (used & Er & _ & Em). subst r.
+  pose proof (max_nesting_segment [e0; EDocumentStart explicit] used (EDocumentEnd :: rest)) as HS.
+  cbn [app] in HS. lia.
 Qed.
